@@ -79,6 +79,24 @@ fn exercise_tree(tree: &Tree) {
     }
     std::hint::black_box(t.iter_operators_mut().count());
     sink(format!("{}", t));
+    // trees changed through the public mutable accessors are still public-API objects: rename every
+    // identifier to an odd name and evaluate / format the result
+    for name in ["", "min", "\u{0}", "1", "a b", "if"] {
+        let mut m = tree.clone();
+        for id in m.iter_identifiers_mut() {
+            *id = name.to_string();
+        }
+        sink(format!("{} {:?}", m, m));
+        let h = adapt::HCtx::new();
+        let emptyb = EmptyContextWithBuiltinFunctions::<DefaultNumericTypes>::default();
+        let empty = EmptyContext::<DefaultNumericTypes>::default();
+        for r in [m.eval_with_context(&h), m.eval_with_context_mut(&mut h.clone()), m.eval_with_context(&emptyb), m.eval_with_context(&empty), m.eval()] {
+            match r {
+                Ok(v) => fmt_value(&v),
+                Err(e) => fmt_err(&e),
+            }
+        }
+    }
 }
 
 /// Everything C01 quantifies over for one (source, context) pair. Returns how far the input got.
@@ -130,6 +148,8 @@ fn check_program(p: &Program, l: &mut Local) -> Outcome {
                 "raw" => "family: raw Unicode",
                 "planted" => "family: planted defect",
                 "deep" => "family: deep nesting",
+                "typed" => "family: type-directed program",
+                "fixed" => "family: fixed",
                 _ => "family: other",
             });
             if built {
@@ -284,7 +304,7 @@ pub fn run(rep: &Report) {
     // (b) operator matrix
     let pool = pools::value_pool();
     let n = pool.len() as u64;
-    common::enumerate(rep, "operator-matrix", 14 * n * n + 2 * n, 256, &|i, l| {
+    common::enumerate(rep, "operator-matrix", 14 * n * n + 4 * n, 256, &|i, l| {
         if i < 14 * n * n {
             let r = i % (n * n);
             check_operator((i / (n * n)) as usize, &pool[(r / n) as usize], &pool[(r % n) as usize], l)
@@ -305,7 +325,9 @@ pub fn run(rep: &Report) {
     };
     common::enumerate(rep, "deep-nesting", deep.len() as u64, 1, &|i, l| {
         let p = Program { family: "deep", src: deep[i as usize].clone(), ast: None, ctx: ctx.clone() };
-        l.sample(1, || json!({"deep": vcore::clip(&p.src, 24), "chars": p.src.chars().count()}));
+        if p.src.chars().count() >= 1000 && i % 7 == 0 {
+            l.sample(1, || json!({"deep": vcore::clip(&p.src, 24), "chars": p.src.chars().count()}));
+        }
         check_program(&p, l)
     });
     // (c) generated programs
